@@ -116,6 +116,14 @@ def S_try(body):
     return "(STry %s)" % clist(body)
 
 
+def S_if(cond, th, el=()):
+    return "(SIf %s %s %s)" % (cond, clist(th), clist(el))
+
+
+def S_for(x, e, body):
+    return "(SFor %s %s %s)" % (qs(x), e, clist(body))
+
+
 def S_block(body):
     return "(SBlock %s)" % clist(body)
 
@@ -730,6 +738,100 @@ class Gen:
         self.stmts.append(S_print(E_inv(E_var(x), "derives", [E_var(parent)])) if "derives" not in self.visible(parent)
                           else S_ptype(E_var(x)))
 
+    # ----- implicit member accesses of the VM: `iter` (for statement), `next` (IterNext), core.yl's map / reduce
+    def iterator_classes(self, k, levels, iter_override):
+        """a 1-3 level hierarchy of iterators below core Iter; `next` is a state machine over the field k; the middle
+        class overrides `next` (and calls super.next()); constructors pass the tag up"""
+        r = self.r
+        base = "It%d" % k
+        out = []
+        nxt = [S_print(E_str(base + ".next")),
+               S_if(E_eq(E_get("ESelf", "k"), E_num(0)), [S_setf("ESelf", "k", E_num(1)), S_ret(E_get("ESelf", "t"))]),
+               S_if(E_eq(E_get("ESelf", "k"), E_num(1)), [S_setf("ESelf", "k", E_num(2)), S_ret(E_str("second"))]),
+               S_ret(E_inv(E_var("StopIter"), "new", []))]
+        ms = [M_decl("KInit", "new", ["t"], [S_setf("ESelf", "k", E_num(0)), S_setf("ESelf", "t", E_var("t"))], self.lab()),
+              M_decl("KMethod", "next", [], nxt, self.lab())]
+        if iter_override == 1:
+            ms.append(M_decl("KMethod", "iter", [], [S_print(E_str(base + ".iter")), S_ret("ESelf")], self.lab()))
+        out.append(S_class(base, "Iter", None, ms, self.lab()))
+        top = base
+        for lv in range(2, levels + 1):
+            name = "It%d_%d" % (k, lv)
+            ms = [M_decl("KInit", "new", ["t"], [S_expr(E_sinv("new", [E_var("t")]))], self.lab())]
+            if lv == 2 or r.random() < 0.3:
+                ms.append(M_decl("KMethod", "next", [], [S_print(E_str(name + ".next")), S_ret(E_sinv("next", []))], self.lab()))
+            if iter_override == lv:
+                ms.append(M_decl("KMethod", "iter", [], [S_print(E_str(name + ".iter")), S_ret(E_sinv("iter", []))], self.lab()))
+            out.append(S_class(name, top, None, ms, self.lab()))
+            top = name
+        for c in [base] + ["It%d_%d" % (k, lv) for lv in range(2, levels + 1)]:
+            self.globals.append(c)
+        return out, base, top
+
+    def iterator_scenario(self, fixed=None):
+        """an instance FIELD named like a member the VM accesses implicitly (`next`, `iter`) shadows the class's method;
+        every access path - x.n(), var g = x.n; g(), the for loop, map, reduce, nested loops - must see the field"""
+        r = self.r
+        k = self.lab()
+        levels = fixed["levels"] if fixed else r.choice([1, 2, 3, 3])
+        classes, base, top = self.iterator_classes(k, levels, fixed["iter_override"] if fixed else r.choice([0, 0, 1, 2]))
+        self.stmts += classes
+        f1, f2, mk = "itf%d" % k, "itg%d" % k, "itlim%d" % k
+        self.stmts.append(S_fun(f1, ["v"], [S_print(E_var("v")), S_ret(E_str("mapped"))]))
+        self.stmts.append(S_fun(f2, ["acc", "v"], [S_print(E_var("v")), S_ret(E_var("v"))]))
+        # a closure with its own state, to be stored in the field `next`
+        self.stmts.append(S_fun(mk, ["w"], [
+            S_var("s", E_num(0)),
+            S_fun("lim", [], [S_if(E_eq(E_var("s"), E_num(0)), [S_assign("s", E_num(1)), S_ret(E_var("w"))]),
+                              S_ret(E_inv(E_var("StopIter"), "new", []))], r.choice([0, 1])),
+            S_ret(E_var("lim"))]))
+        self.globals += [f1, f2, mk]
+        kinds = fixed["kinds"] if fixed else r.sample(["bound", "closure", "data", "none", "iter_bound", "iter_closure", "iter_data"],
+                                                      r.randint(2, 4))
+        paths = fixed["paths"] if fixed else None
+        n = 0
+        for kind in kinds:
+            for path in (paths or r.sample(["call", "value", "for", "map", "reduce", "nested"], r.randint(3, 5))):
+                n += 1
+                x = self.new_var("it")
+                self.stmts.append(S_var(x, E_inv(E_var(top), "new", [E_str("own%d" % n)])))
+                X = E_var(x)
+                other = E_inv(E_var(r.choice([base, top])), "new", [E_str("other%d" % n)])
+                if kind == "bound":
+                    self.stmts.append(S_setf(X, "next", E_get(other, "next")))
+                elif kind == "closure":
+                    self.stmts.append(S_setf(X, "next", E_call(E_var(mk), [E_str("lim%d" % n)])))
+                elif kind == "data":
+                    self.stmts.append(S_setf(X, "next", self.arg()))
+                elif kind == "iter_bound":
+                    self.stmts.append(S_setf(X, "iter", E_get(other, "iter")))
+                elif kind == "iter_closure":
+                    g = "itmk%d_%d" % (k, n)
+                    self.stmts.append(S_fun(g, [], [S_print(E_str(g)), S_ret(other)]))
+                    self.globals.append(g)
+                    self.stmts.append(S_setf(X, "iter", E_var(g)))
+                elif kind == "iter_data":
+                    self.stmts.append(S_setf(X, "iter", self.arg()))
+                self.features.add("iter_field_" + kind)
+                self.features.add("iter_path_" + path)
+                show = lambda e: [S_var("r", e), S_if(E_inv(E_var("r"), "derives", [E_var("StopIter")]),
+                                                       [S_print(E_str("stop"))], [S_print(E_var("r"))])]
+                if path == "call":
+                    body = show(E_inv(X, "next", [])) 
+                    self.stmts.append(S_try([S_block(body), S_block(show(E_inv(X, "next", [])))]))
+                elif path == "value":
+                    self.stmts.append(S_try([S_var("g", E_get(X, "next"))] + show(E_call(E_var("g"), []))))
+                elif path == "for":
+                    self.stmts.append(S_try([S_for("v", X, [S_print(E_var("v"))])]))
+                elif path == "map":
+                    self.stmts.append(S_try([S_for("v", E_inv(X, "map", [E_var(f1)]), [S_print(E_var("v"))])]))
+                elif path == "reduce":
+                    self.stmts.append(S_try([S_print(E_inv(X, "reduce", [E_var(f2), E_str("init")]))]))
+                else:
+                    y = E_inv(E_var(base), "new", [E_str("inner%d" % n)])
+                    self.stmts.append(S_try([S_for("v", X, [S_for("w", y, [S_print(E_var("w"))]), S_print(E_var("v"))])]))
+        self.features.add("iterator_hierarchy_%d_levels" % levels)
+
     def local_factory(self):
         """a class declared in a function's scope, deriving from a global class, with methods that capture a
         local variable; the class escapes through a closure"""
@@ -821,6 +923,8 @@ class Gen:
                 self.construct(c)
         if r.random() < 0.45:
             self.scoped_factory()
+        if r.random() < 0.4:
+            self.iterator_scenario()
         k = r.randint(8, 22 if self.big else 16)
         for _ in range(k):
             c = r.random()
@@ -911,7 +1015,19 @@ def fixed_programs():
             {"term": "[" + ";\n ".join(factory) + "]", "globals": ["P", "F"] + ["K%d" % i for i in range(4)] + ["x%d" % i for i in range(4)],
              "features": ["fixed:class_factory_in_static_method"]},
             {"term": "[" + ";\n ".join(nested) + "]", "globals": ["A", "B", "x", "g"],
-             "features": ["fixed:super_in_nested_fn"]}]
+             "features": ["fixed:super_in_nested_fn"]},
+            fixed_iterator_program()]
+
+
+def fixed_iterator_program():
+    """a field named `next` / `iter` (bound method of another instance, closure, plain data) shadows the method of a
+    3-level iterator hierarchy with a middle override, on every explicit and implicit access path"""
+    g = Gen(yvlib.Rng(7))
+    g.iterator_scenario(fixed={"levels": 3, "iter_override": 2,
+                               "kinds": ["bound", "closure", "data", "iter_bound", "iter_closure"],
+                               "paths": ["call", "value", "for", "map", "reduce", "nested"]})
+    return {"term": "[" + ";\n ".join(g.stmts) + "]", "globals": list(dict.fromkeys(g.globals)),
+            "features": ["fixed:field_shadows_implicit_member"]}
 
 
 def gen_program(rng, big=False):
@@ -979,7 +1095,8 @@ def impl_tables(rec, src):
             k, idn = e.split("=")
             if idn not in ("native", "other"):
                 a = idn.split("/")
-                idn = "%s/%s/L%s" % (yvlib.unhx(a[0]).decode(), a[1], line2lab.get(int(a[2]), "?%s" % a[2]))
+                where = "core" if a[2] == "core" else "L%s" % line2lab.get(int(a[2]), "?%s" % a[2])
+                idn = "%s/%s/%s" % (yvlib.unhx(a[0]).decode(), a[1], where)
             ent.append("%s=%s" % (yvlib.unhx(k).decode(), idn))
         return ",".join(ent)
 
@@ -1124,11 +1241,12 @@ def report(ctx, cases, models, fails, stats, do_shrink=True):
                 v = yvlib.coq_eval(["YV:ClassLang"], ["variant_case %s" % c["term"]], shard_size=1, tag="c07_variant",
                                    preamble="Open Scope string_scope.")[0]
                 if v:
-                    old, anyst = v.split("@")
+                    old, anyst, iterfc = v.split("@")
                     impl_o = detail.get("impl")
                     extra["implementation_behaves_like_model_variant"] = (
                         "SuperRunningFrame (super_ before 0fbde2d)" if impl_o == old else
-                        "SuperAnyStaticSelf (receiver = Self of any enclosing static method)" if impl_o == anyst else "none")
+                        "SuperAnyStaticSelf (receiver = Self of any enclosing static method)" if impl_o == anyst else
+                        "IterFromClass (IterNext bypasses the instance's field `next`)" if impl_o == iterfc else "none")
             except Exception as e:
                 extra["variant_diagnosis_failed"] = repr(e)
         ctx.violation("%s on a generated class program" % kind, input={"source": src, "term": term, "globals": c["globals"]},
